@@ -16,15 +16,18 @@ pub struct MiriCase {
     pub case_seed: u64,
     pub k: u64,
     pub miri_seed: u64,
+    /// Stacked Borrows enabled, operations restricted to those that reach nodes through Table::get_mut
+    #[serde(default)]
+    pub sb: bool,
 }
 
-fn run_one(case_seed: u64, first: u64, n: u64, miri_seed: u64) -> Result<(u64, u64), (Option<u64>, String, String)> {
+fn run_one(case_seed: u64, first: u64, n: u64, miri_seed: u64, sb: bool) -> Result<(u64, u64), (Option<u64>, String, String)> {
     let root = verif_root();
     let out = Command::new("cargo")
-        .args(["+nightly", "miri", "run", "--quiet", "--bin", "miri_c14", "--target-dir", &format!("{root}/target/miri"), "--", &case_seed.to_string(), &first.to_string(), &n.to_string()])
+        .args(["+nightly", "miri", "run", "--quiet", "--bin", "miri_c14", "--target-dir", &format!("{root}/target/miri"), "--", &case_seed.to_string(), &first.to_string(), &n.to_string(), "threads", if sb { "sb" } else { "all" }])
         .current_dir(format!("{root}/harness"))
         .env("CARGO_NET_OFFLINE", "true")
-        .env("MIRIFLAGS", format!("-Zmiri-seed={miri_seed} -Zmiri-disable-isolation -Zmiri-disable-stacked-borrows"))
+        .env("MIRIFLAGS", format!("-Zmiri-seed={miri_seed} -Zmiri-disable-isolation{}", if sb { "" } else { " -Zmiri-disable-stacked-borrows" }))
         .output()
         .map_err(|e| (None, "infra".to_string(), format!("cannot run cargo miri: {e}")))?;
     let so = String::from_utf8_lossy(&out.stdout).to_string();
@@ -57,7 +60,7 @@ fn run_one(case_seed: u64, first: u64, n: u64, miri_seed: u64) -> Result<(u64, u
 
 pub fn run_miri(seed: u64, procs: u64, cases_per_proc: u64, miri_seeds: &[u64]) -> Outcome {
     // build once (serially) so that the parallel runs do not all wait on the build lock
-    let warm = run_one(seed, 0, 1, miri_seeds[0]);
+    let warm = run_one(seed, 0, 1, miri_seeds[0], false);
     let mut o = Outcome::default();
     if let Err((_, sig, msg)) = &warm {
         if sig == "infra" {
@@ -68,17 +71,20 @@ pub fn run_miri(seed: u64, procs: u64, cases_per_proc: u64, miri_seeds: &[u64]) 
     let mut jobs = Vec::new();
     for (mi, ms) in miri_seeds.iter().enumerate() {
         for p in 0..procs {
-            jobs.push((seed.wrapping_add(mi as u64 * 7919), p * cases_per_proc, cases_per_proc, *ms));
+            jobs.push((seed.wrapping_add(mi as u64 * 7919), p * cases_per_proc, cases_per_proc, *ms, false));
+            if p % 2 == 0 {
+                jobs.push((seed.wrapping_add(mi as u64 * 7919 + 13), p * cases_per_proc, cases_per_proc, *ms, true));
+            }
         }
     }
     let threads = std::thread::available_parallelism().map(|n| n.get()).unwrap_or(4).min(16);
-    let mut o = run_parallel(jobs, threads, |(cs, first, n, ms)| {
+    let mut o = run_parallel(jobs, threads, |(cs, first, n, ms, sb)| {
         let mut o = Outcome::default();
-        match run_one(cs, first, n, ms) {
+        match run_one(cs, first, n, ms, sb) {
             Ok((cases, nt)) => {
                 o.evaluations = cases;
                 o.counted_nontrivial = nt;
-                *o.classes.entry("miri_cases".into()).or_insert(0) += cases;
+                *o.classes.entry(if sb { "miri_cases_stacked_borrows_get_mut_subset".to_string() } else { "miri_cases".to_string() }).or_insert(0) += cases;
             }
             Err((k, sig, msg)) => {
                 if sig == "infra" {
@@ -89,6 +95,7 @@ pub fn run_miri(seed: u64, procs: u64, cases_per_proc: u64, miri_seeds: &[u64]) 
                         case_seed: cs,
                         k: k.unwrap_or(first),
                         miri_seed: ms,
+                        sb,
                     };
                     let replay = write_replay("C14", &format!("C14-miri-{cs}-{}", mc.k), ms, &mc, "C14", &sig, &msg);
                     o.violation = Some(Violation {
@@ -104,7 +111,7 @@ pub fn run_miri(seed: u64, procs: u64, cases_per_proc: u64, miri_seeds: &[u64]) 
     });
     o.extra.insert(
         "miri".into(),
-        serde_json::json!({"flags": "-Zmiri-disable-stacked-borrows -Zmiri-disable-isolation", "miri_seeds": miri_seeds, "processes": procs * miri_seeds.len() as u64, "cases_per_process": cases_per_proc}),
+        serde_json::json!({"flags": "all operations: -Zmiri-disable-stacked-borrows -Zmiri-disable-isolation; get_mut-only subset of operations: Stacked Borrows enabled", "miri_seeds": miri_seeds, "processes": procs * miri_seeds.len() as u64, "cases_per_process": cases_per_proc}),
     );
     o
 }
@@ -114,7 +121,7 @@ pub fn replay_miri(path: &str) -> Outcome {
     let mut o = Outcome::default();
     o.is_replay = true;
     o.evaluations = 1;
-    match run_one(mc.case_seed, mc.k, 1, mc.miri_seed) {
+    match run_one(mc.case_seed, mc.k, 1, mc.miri_seed, mc.sb) {
         Ok(_) => {}
         Err((_, sig, msg)) => {
             if sig == "infra" {
